@@ -257,6 +257,19 @@ func runC17(c *rt.Ctx) {
 	for i := 0; i < nd; i++ {
 		c.Case("double", i, func(o *rt.Obs) { c17Case(c, o, true) })
 	}
+	// the same enumeration on a real directory through pkg/storage/file.go: the
+	// directed victims first, then generated histories
+	for i, d := range c17Directed() {
+		d := d
+		if !d.fileLike || (c.Tier == "quick" && i != 1 && i != 5 && i != 9) {
+			continue // quick: a load, lake init, a vector add
+		}
+		c.Case("realfs-directed", i, func(o *rt.Obs) { c17RunOn(c, o, d.spec, true, true, d.prefix, d.victim, false) })
+	}
+	nr := c.N(3, 150)
+	for i := 0; i < nr; i++ {
+		c.Case("realfs", i, func(o *rt.Obs) { c17CaseOn(c, o, false, true) })
+	}
 }
 
 type c17Dir struct {
@@ -296,7 +309,9 @@ func c17Directed() []c17Dir {
 	}
 }
 
-func c17Case(c *rt.Ctx, o *rt.Obs, double bool) {
+func c17Case(c *rt.Ctx, o *rt.Obs, double bool) { c17CaseOn(c, o, double, false) }
+
+func c17CaseOn(c *rt.Ctx, o *rt.Obs, double, real bool) {
 	r := o.R
 	spec := genPoolSpec(r, "p")
 	if spec.Key == "this" {
@@ -336,17 +351,28 @@ func c17Case(c *rt.Ctx, o *rt.Obs, double bool) {
 		op := hg.op()
 		v = c17Victim{Kind: "op", Op: op}
 	}
-	c17Run(c, o, spec, fileLike, prefix, v, double)
+	c17RunOn(c, o, spec, fileLike, real, prefix, v, double)
 }
 
 func c17Run(c *rt.Ctx, o *rt.Obs, spec lk.PoolSpec, fileLike bool, prefix []lk.Op, v c17Victim, double bool) {
+	c17RunOn(c, o, spec, fileLike, false, prefix, v, double)
+}
+
+// c17RunOn: with real set the back end is a scratch directory driven through
+// the repository's own file engine (store.Dir) instead of the in-memory model.
+func c17RunOn(c *rt.Ctx, o *rt.Obs, spec lk.PoolSpec, fileLike, real bool, prefix []lk.Op, v c17Victim, double bool) {
 	ctx := context.Background()
-	desc := map[string]any{"pool": spec, "file_semantics": fileLike, "prefix": prefix, "victim": v.String(), "double_crash": double}
+	desc := map[string]any{"pool": spec, "file_semantics": fileLike, "real_file_engine": real, "prefix": prefix, "victim": v.String(), "double_crash": double}
 	o.Desc(desc)
 	if o.Index%50 == 0 {
 		o.Sample(desc)
 	}
-	backing := store.NewMem()
+	backing := newBacking(real)
+	defer store.Discard(backing)
+	if real {
+		fileLike = true
+		o.Count("cases_on_real_file_engine", 1)
+	}
 	var m *lk.Model
 	if v.Kind != "init" {
 		eng := store.New(backing, fileLike)
@@ -471,7 +497,11 @@ func c17Run(c *rt.Ctx, o *rt.Obs, spec lk.PoolSpec, fileLike bool, prefix []lk.O
 			o.Nontrivial(fmt.Sprintf("%s/%d/%d/%v", o.Kind, o.Index, pt.k, pt.partial))
 		}
 		where := fmt.Sprintf("crash at storage operation %d of %d of %s, i.e. before %s (victim returned: %v)", pt.k, nops, v, crashOp, verr)
+		if real {
+			o.Count("crash_points_on_real_file_engine", 1)
+		}
 		c17Check(c, o, ctx, b, fileLike, v, before, after, verr, crashOp, where, double, 0)
+		store.Discard(b)
 	}
 }
 
